@@ -63,7 +63,9 @@ structure St where
 
 /-- work items: a file named on the command line, or a directive with its includer's directory -/
 inductive Item where
-  | input (f : Nat)
+  /-- `main = true`: the main file of the translation unit (clang ignores `#pragma once` there, both
+      when deciding whether to read it and when it appears in it); `false`: an `-include`d file -/
+  | input (main : Bool) (f : Nat)
   | dir (d : Nat) (x : Dir)
 
 def guardOf (cfg : Cfg) (f : Nat) : Guard := (cfg.files[f]?.map (·.guard)).getD .none
@@ -74,20 +76,24 @@ def bodyOf (cfg : Cfg) (f : Nat) : List Dir := (cfg.files[f]?.map (·.body)).get
 def skipped (st : St) (f : Nat) : Bool := st.once.contains f || st.guards.contains f
 
 /-- reading `f`: remember it, note its guard, queue its body -/
-def enterSt (cfg : Cfg) (st : St) (f : Nat) : St :=
+def enterSt (cfg : Cfg) (st : St) (f : Nat) (main : Bool := false) : St :=
   { st with
     entered := st.entered ++ [f]
-    once := if guardOf cfg f = .once then f :: st.once else st.once
+    once := if guardOf cfg f = .once ∧ main = false then f :: st.once else st.once
     guards := if guardOf cfg f = .ifndef then f :: st.guards else st.guards }
+
+/-- is a file named on the command line not read (again)? -/
+def skippedInput (st : St) (main : Bool) (f : Nat) : Bool :=
+  if main then st.guards.contains f else skipped st f
 
 /-- the preprocessor, as a work-list machine; `none`: an include was not found (clang: fatal
     error, bindgen returns `Err`) or the step budget ran out (unguarded recursion) -/
 def run (cfg : Cfg) : Nat → List Item → St → Option St
   | _, [], st => some st
   | 0, _ :: _, _ => none
-  | n + 1, .input f :: rest, st =>
-    if skipped st f then run cfg n rest st
-    else run cfg n ((bodyOf cfg f).map (Item.dir (dirOf cfg f)) ++ rest) (enterSt cfg st f)
+  | n + 1, .input m f :: rest, st =>
+    if skippedInput st m f then run cfg n rest st
+    else run cfg n ((bodyOf cfg f).map (Item.dir (dirOf cfg f)) ++ rest) (enterSt cfg st f m)
   | n + 1, .dir d (.cond a body) :: rest, st =>
     run cfg n ((if a then body.map (Item.dir d) else []) ++ rest) st
   | n + 1, .dir d (.incl angle name) :: rest, st =>
@@ -100,7 +106,7 @@ def run (cfg : Cfg) : Nat → List Item → St → Option St
 
 /-- an input of the invocation: a header on disk, or in-memory `header_contents` -/
 inductive Top where
-  | file (f : Nat)
+  | file (main : Bool) (f : Nat)
   | virt (body : List Dir)
 
 /-- `Builder::generate` / `Bindings::generate` build the clang command line
@@ -114,10 +120,10 @@ def commandLineOrder (inputs : List Nat) (virt : List (List Dir)) : List Top :=
     match virt with
     | [] => []
     | v0 :: vs => vs.map Top.virt ++ [Top.virt v0]
-  | some main => inputs.dropLast.map Top.file ++ virt.map Top.virt ++ [Top.file main]
+  | some main => inputs.dropLast.map (Top.file false) ++ virt.map Top.virt ++ [Top.file true main]
 
 def topItems (cwd : Nat) : Top → List Item
-  | .file f => [Item.input f]
+  | .file m f => [Item.input m f]
   | .virt b => b.map (Item.dir cwd)
 
 /-- the work list of an invocation (in-memory contents live in the current directory) -/
